@@ -172,6 +172,8 @@ def _verify_instance(eng: Engine, c: Contract, src: source.FuncSrc, prop: str, i
 			run_hints(eng, fn, post, c.hints_exit, old)
 			for cl, t in clause_terms(eng, fn, post, c.ensures, old):
 				eng.oblige(fn, 'post', post, t, cl, src.lineno)
+			for cl, t in clause_terms(eng, fn, post, c.exit_asserts, old):
+				eng.oblige(fn, 'post-local', post, t, cl, src.lineno)
 			# frame: record-typed parameters may change only in the fields listed under `modifies`
 			for pname, pty in ptys.items():
 				if isinstance(pty, TRec) and pname in sx.env and isinstance(sx.env[pname].ty, TRec):
